@@ -67,6 +67,28 @@ def gen(rng, tier):
         nt = [0] * 3; nt[i] = 2
         line = "opsm v %s I %s %s 1 R %s %s 1" % (S.args(d), KO.opt(prm), ",".join(map(str, nr)), KO.opt(prm), ",".join(map(str, nt)))
         out.append(Case('ins-rem-method', line, dict(shape=d, dir=i, prm=prm, nr=nr, nt=nt), tags=('volume-method',)))
+    # several directions in ONE call (surfaces and volumes): the second direction must see the net
+    # the first one produced
+    for _ in range(14 if tier == 'quick' else 160):
+        d = S.rand_surface(rng, maxp=3, max_interior=2) if rng.random() < .7 else S.rand_volume(rng, maxp=2, max_interior=1)
+        nd = len(S.dirs(d))
+        prm = [None] * nd; nr = [0] * nd; nt = [0] * nd
+        dirs_ = rng.sample(range(nd), rng.randint(2, nd))
+        for i in dirs_:
+            p, kv, n_ = S.dirs(d)[i]
+            u = kv[p] + (kv[n_] - kv[p]) * F(rng.randint(1, 99), 100)
+            s = sum(1 for x in kv if x == u)
+            if s >= p:
+                continue
+            r = rng.randint(1, min(2, p - s))
+            prm[i] = u; nr[i] = r; nt[i] = r if rng.random() < .8 else rng.randint(1, r)
+        if sum(1 for x in prm if x is not None) < 2:
+            continue
+        kind = 'ins-rem' if (d['kind'] == 'volume' or rng.random() < .6) else 'ins-rem-method'
+        op = 'ops' if kind == 'ins-rem' else 'opsm'
+        line = "%s %s %s I %s %s 1 R %s %s 1" % (op, KO.KIND[d['kind']], S.args(d), KO.opt(prm), ",".join(map(str, nr)),
+                                                 KO.opt(prm), ",".join(map(str, nt)))
+        out.append(Case(kind, line, dict(shape=d, dir=[i for i in range(nd) if prm[i] is not None][0], prm=prm, nr=nr, nt=nt), tags=('multi-dir',)))
     # removal after refinement (curves and surfaces): remove every copy of one refined knot
     m = 15 if tier == 'quick' else 200
     k = 0
@@ -120,9 +142,14 @@ def _run(c, o):
                 mid = S.from_obj(o)
                 o.remove_knot(qp[0], num=c.data['nt'][0])
             else:
-                o.insert_knot(**{name: qp[i], 'num_' + name: c.data['nr'][i]})
+                act = [k for k in range(len(qp)) if qp[k] is not None]
+                kwi = {}; kwr = {}
+                for k in act:
+                    kwi['uvw'[k]] = qp[k]; kwi['num_' + 'uvw'[k]] = c.data['nr'][k]
+                    kwr['uvw'[k]] = qp[k]; kwr['num_' + 'uvw'[k]] = c.data['nt'][k]
+                o.insert_knot(**kwi)
                 mid = S.from_obj(o)
-                o.remove_knot(**{name: qp[i], 'num_' + name: c.data['nt'][i]})
+                o.remove_knot(**kwr)
         return mid
     if c.kind == 'refine-rem':
         operations.refine_knotvector(o, list(c.data['dens']))
@@ -159,20 +186,28 @@ def oracle(c):
         if len(kv2) != len(kv) - t or n2 != n - t:
             return "removal did not reduce knot vector / net by %d" % t
         return None
-    p, kvm, nm = S.dirs(mid)[i]
-    p2, kv2, n2 = S.dirs(after)[i]
+    for k in range(len(c.data['prm'])):
+        if c.data['prm'][k] is None or not c.data['nt'][k]:
+            # untouched direction: knot vector and size as they were after the insertion
+            if S.dirs(after)[k][1] != S.dirs(mid)[k][1] or S.dirs(after)[k][2] != S.dirs(mid)[k][2]:
+                return "direction %d was not selected for removal but changed" % k
+            continue
+        tk = c.data['nt'][k]
+        p, kvm, nm = S.dirs(mid)[k]
+        p2, kv2, n2 = S.dirs(after)[k]
+        u = c.data['prm'][k]
+        want = list(kvm)
+        for _ in range(tk):
+            want.remove(u)
+        if kv2 != want:
+            return "knot vector after removal is not the previous one minus %d copies of %s" % (tk, fr(u))
+        if n2 != nm - tk:
+            return "net size after removal %d, expected %d" % (n2, nm - tk)
     u = c.data['prm'][i]
-    want = list(kvm)
-    for _ in range(t):
-        want.remove(u)
-    if kv2 != want:
-        return "knot vector after removal is not the previous one minus %d copies of %s" % (t, fr(u))
-    if n2 != nm - t:
-        return "net size after removal %d, expected %d" % (n2, nm - t)
     why = KO.same_points(before, after, KO.probe_params(mid))
     if why:
         return "insert/refine then remove: " + why
-    if c.kind != 'refine-rem' and t == c.data['nr'][i]:
+    if c.kind != 'refine-rem' and all(a == b for a, b in zip(c.data['nt'], c.data['nr'])):
         if after['P'] != before['P']:
             k = [a != b for a, b in zip(after['P'], before['P'])].index(True)
             return "inserting %s %d times and removing it %d times does not restore control point %d: %s instead of %s" % (
